@@ -394,7 +394,7 @@ func genC09Case(w *bufio.Writer, r *rand.Rand, caseLine string) {
 				}
 				return false
 			}
-			switch pick(r, 8, 3, 1, 3, 2, 2, 2, 1, 2) {
+			switch pick(r, 8, 3, 2, 3, 2, 2, 2, 1, 2) {
 			case 0:
 				if big() {
 					kl, vl := bigEntry(r, false)
@@ -410,7 +410,13 @@ func genC09Case(w *bufio.Writer, r *rand.Rand, caseLine string) {
 					fmt.Fprintf(w, "del %s\n", genSizedTok(r, false))
 				}
 			case 2:
-				fmt.Fprintf(w, "merge %s %s\n", genSizedTok(r, false), genSizedTok(r, false))
+				// merge entries go through the same record formats as puts (fragmented ones too)
+				if big() {
+					kl, vl := bigEntry(r, false)
+					fmt.Fprintf(w, "merge %s %s\n", lenTok(r, kl), lenTok(r, vl))
+				} else {
+					fmt.Fprintf(w, "merge %s %s\n", genSizedTok(r, false), genSizedTok(r, false))
+				}
 			case 3:
 				k := 1 + r.Intn(6)
 				if r.Intn(10) == 0 {
@@ -431,9 +437,9 @@ func genC09Case(w *bufio.Writer, r *rand.Rand, caseLine string) {
 						}
 					} else if bigOp {
 						kl, vl := bigEntry(r, false)
-						fmt.Fprintf(w, "p %s %s\n", lenTok(r, kl), lenTok(r, vl))
+						fmt.Fprintf(w, "%s %s %s\n", []string{"p", "p", "m"}[r.Intn(3)], lenTok(r, kl), lenTok(r, vl))
 					} else {
-						fmt.Fprintf(w, "p %s %s\n", genSizedTok(r, false), genSizedTok(r, false))
+						fmt.Fprintf(w, "%s %s %s\n", []string{"p", "p", "p", "m"}[r.Intn(4)], genSizedTok(r, false), genSizedTok(r, false))
 					}
 				}
 			case 4:
